@@ -286,6 +286,9 @@ func (b *builder) scenarios(seed uint64) []*scenario {
 	{
 		w := fullChart.Clone()
 		inst := []pkgObj{
+			// a package preloaded into the package cache (pull policy Never): its source is a file name,
+			// not an image reference, and its object sorts before every other Provider
+			{Kind: "Provider", Name: "a-preloaded", Source: "Preloaded/Provider_Tools.xpkg", Custom: true},
 			{Kind: "Provider", Name: "my-aws", Source: "xpkg.upbound.io/crossplane-contrib/provider-aws:v1", Custom: true},
 			{Kind: "Configuration", Name: "my-net", Source: "ghcr.io/acme/configuration-net@" + digA, Custom: true},
 			{Kind: "Function", Name: "my-fn", Source: "registry.example.com:5000/acme/function-x:v1", Custom: true},
